@@ -504,3 +504,67 @@ Example C10_ex_from_dicts_refuses :
                     (sample_shared Z Z (ex_in 5 [])) = Err 93 /\
   in_from_dicts Z Z [(key "W", PArr 1); (key "V2", PArr 2); (key "precision", PNum 3)] [] = Err 94.
 Proof. vm_compute. repeat split; reflexivity. Qed.
+
+(* ---- the remaining small functions of core.py (Generated/SrcCoreSmall.v, Generated/SrcInits.v) ---- *)
+From Batchie Require Generated.SrcCoreSmall Generated.SrcInits Proofs.C10Source_Iter Proofs.C10Source_EvaluateAll
+  Proofs.C10Source_Init_BayesianModel Proofs.C10Source_Init_Metric.
+
+(* ThetaHolder.__iter__ (a generator: the list it yields): the stored samples, in their order *)
+Theorem C10_model_is_source_iter : forall (P S : Type) (self : pyobj P S),
+  SrcCoreSmall.src_holder_iter P S self = Ok (attr_thetas self).
+Proof. exact C10Source_Iter.src_holder_iter_is_thetas. Qed.
+Print Assumptions C10_model_is_source_iter.
+
+(* Metric.evaluate_all: iterating the holder runs the translated __iter__; the abstract method evaluate is ANY function that may
+   raise: the values of the stored samples in their order, the first exception aborting (np.array of the list: the same values) *)
+Theorem C10_model_is_source_evaluate_all : forall (P S V : Type) (ev : theta P S -> result V) (h : pyobj P S),
+  SrcCoreSmall.src_metric_evaluate_all P S V ev h = res_map_all ev (attr_thetas h).
+Proof. exact C10Source_EvaluateAll.src_metric_evaluate_all_is_map. Qed.
+Print Assumptions C10_model_is_source_evaluate_all.
+
+(* BayesianModel.__init__ / Metric.__init__ store their argument (the stored object is opaque) *)
+Theorem C10_model_is_source_bayesian_model_init : forall (Sp : Type) (experiment_space : Sp),
+  SrcInits.src_bayesian_model_init Sp experiment_space = Ok experiment_space.
+Proof. exact C10Source_Init_BayesianModel.src_bayesian_model_init_stores. Qed.
+Print Assumptions C10_model_is_source_bayesian_model_init.
+
+Theorem C10_model_is_source_metric_init : forall (Mo : Type) (model : Mo), SrcInits.src_metric_init Mo model = Ok model.
+Proof. exact C10Source_Init_Metric.src_metric_init_stores. Qed.
+Print Assumptions C10_model_is_source_metric_init.
+
+(* ---- SimulationTracker (core.py; Generated/SrcTracker.v; vocabulary Model/Tracker.v).  J = a JSON-native value; the object is the
+   triple of its attributes, the JSON file is None (nothing written) or Some (the object it holds).  No code of src/batchie uses
+   the class. ---- *)
+From Batchie Require Model.Tracker Generated.SrcTracker Proofs.C10Source_Tracker.
+
+Theorem C10_model_is_source_tracker_init : forall (J : Type) (o : Tracker.pytracker J) (a b c : J),
+  SrcTracker.src_tracker_init J o a b c = Ok (a, b, c).
+Proof. exact C10Source_Tracker.src_tracker_init_stores. Qed.
+Print Assumptions C10_model_is_source_tracker_init.
+
+(* save writes ONE JSON object: the three attributes under their names *)
+Theorem C10_model_is_source_tracker_save : forall (J : Type) (t : Tracker.pytracker J),
+  SrcTracker.src_tracker_save J t = Ok (Some (Tracker.tracker_dict t)).
+Proof. exact C10Source_Tracker.src_tracker_save_writes_dict. Qed.
+Print Assumptions C10_model_is_source_tracker_save.
+
+(* load(save(t)) = t, whatever the fresh instance cls.__new__ makes *)
+Theorem C10_model_is_source_tracker_save_load : forall (J : Type) (blank t : Tracker.pytracker J),
+  (dor f <- SrcTracker.src_tracker_save J t; SrcTracker.src_tracker_load J blank f) = Ok t.
+Proof. exact C10Source_Tracker.src_tracker_save_load. Qed.
+Print Assumptions C10_model_is_source_tracker_save_load.
+
+(* load binds by name (any key order); it refuses an empty file (95) and an object whose keys are not exactly the three parameters
+   (TypeError of cls( **data ), 93) *)
+Theorem C10_model_is_source_tracker_load_any_order : forall (J : Type) (blank : Tracker.pytracker J) (a b c : J),
+  SrcTracker.src_tracker_load J blank
+    (Some [(Tracker.tkey_of "seed", c); (Tracker.tkey_of "plate_ids_selected", a); (Tracker.tkey_of "losses", b)]) = Ok (a, b, c).
+Proof. exact C10Source_Tracker.src_tracker_load_any_order. Qed.
+Print Assumptions C10_model_is_source_tracker_load_any_order.
+
+Theorem C10_model_is_source_tracker_load_refuses : forall (J : Type) (blank : Tracker.pytracker J) (x : J),
+  SrcTracker.src_tracker_load J blank None = Err 95 /\
+  SrcTracker.src_tracker_load J blank (Some [(Tracker.tkey_of "seed", x); (Tracker.tkey_of "extra", x)]) = Err 93 /\
+  SrcTracker.src_tracker_load J blank (Some [(Tracker.tkey_of "seed", x); (Tracker.tkey_of "losses", x)]) = Err 93.
+Proof. exact C10Source_Tracker.src_tracker_load_refuses. Qed.
+Print Assumptions C10_model_is_source_tracker_load_refuses.
